@@ -57,6 +57,18 @@ def run(ctx, b, broken):
             r = oracle(text, tmp, ["-O0"])
             return None if r in (None, "SKIP-gcc", "SKIP-pycparser") else r
         replay_known(ctx, known_oracle)
+        for text in semgen.SEMZOO:
+            ctx.evaluations += 1
+            r = oracle(text, tmp, opts)
+            ctx.count("directed:" + (r if r in ("SKIP-gcc", "SKIP-pycparser") else "compared"))
+            if r in ("SKIP-gcc", "SKIP-pycparser"):
+                # these programs are accepted by gcc and by the unchanged parser: a skip is a change of behaviour
+                su.violation(text, f"a directed program is no longer compared ({r})")
+                continue
+            ctx.nontriv(text)
+            su.corr(text, tag="directed semantic programs")
+            if r:
+                su.violation(text, r)
         n = 150 if ctx.tier == "quick" else 1500
         for i in range(n):
             sg = semgen.Sem(ctx.rng)
